@@ -1,7 +1,7 @@
 SPECIFICATION Spec
 CONSTANTS
-  RootNames = {1, 2, 4, 6}
-  Stride = 1
+  RootNames = {1, 2, 4}
+  Stride = 2
   AncestorFollow = FALSE
   MaxWalkDepth = 2
 CONSTRAINT Export
